@@ -440,7 +440,7 @@ fn c18_rev_after_set() {
     let g = dispatch::set_default(&d);
     let keep: bool = kani::any();
     let g = if keep { Some(g) } else { drop(g); None };
-    assert!(dispatch::has_been_set());
+    let sticky = dispatch::has_been_set();
     let r = any_level_rank();
     emit_event(r);
     let span = new_span(r);
@@ -448,11 +448,80 @@ fn c18_rev_after_set() {
         let _e = span.enter();
     }
     drop(span);
+    // the observable first: no record, logger not even asked
     assert!(LOGGER.count() == 0);
     assert!(LOGGER.asked.load(Relaxed) == 0);
+    assert!(sticky && dispatch::has_been_set());
     drop(g);
     kani::cover!(keep && r == 3);
     kani::cover!(!keep && r == 5);
+}
+
+/// what "nothing is logged any more" means: event + span new / enter / exit / drop on
+/// simulated thread `t` leave the logger untouched
+fn emit_all_expect_silence(t: usize) {
+    tracing_core::__verif::set_thread(t);
+    let r = any_level_rank();
+    emit_event(r);
+    assert!(LOGGER.count() == 0);
+    let span = new_span(r);
+    assert!(LOGGER.count() == 0);
+    {
+        let _e = span.enter();
+        assert!(LOGGER.count() == 0);
+    }
+    assert!(LOGGER.count() == 0);
+    drop(span);
+    assert!(LOGGER.count() == 0);
+    assert!(LOGGER.asked.load(Relaxed) == 0);
+    kani::cover!(r == 1 && t == 0);
+    kani::cover!(r == 5 && t == 1);
+}
+
+/// "ever installed" is sticky: a scoped collector was installed with `set_default` and its
+/// guard DROPPED again (no collector is live on any simulated thread, no global default
+/// exists) - still no log record, on the installing thread or any other
+#[kani::proof]
+#[kani::unwind(4)]
+#[kani::stub(std::rt::thread_cleanup, noop)]
+#[kani::stub(core::fmt::write, fmt_write_stub)]
+fn c18_rev_after_guard_drop() {
+    install_logger(log::LevelFilter::Trace);
+    assert!(!dispatch::has_been_set());
+    let d = tracing_core::__verif::dispatch_unregistered(&C);
+    let g = dispatch::set_default(&d);
+    assert!(dispatch::has_been_set());
+    drop(g);
+    drop(d);
+    // sticky: still "has been set" although nothing is installed any more (asserted after
+    // the observable, so that a violation shows up as an emitted record first)
+    let sticky = dispatch::has_been_set();
+    let t: usize = kani::any();
+    kani::assume(t < tracing_core::__verif::THREADS);
+    emit_all_expect_silence(t);
+    // nothing reached the (no longer installed) collector either
+    assert!(C.events.load(Relaxed) == 0 && C.spans.load(Relaxed) == 0);
+    assert!(sticky && dispatch::has_been_set());
+}
+
+/// the same after `with_default(..)` has returned
+#[kani::proof]
+#[kani::unwind(4)]
+#[kani::stub(std::rt::thread_cleanup, noop)]
+#[kani::stub(core::fmt::write, fmt_write_stub)]
+fn c18_rev_after_with_default() {
+    install_logger(log::LevelFilter::Trace);
+    assert!(!dispatch::has_been_set());
+    let d = tracing_core::__verif::dispatch_unregistered(&C);
+    let inside = dispatch::with_default(&d, || dispatch::has_been_set());
+    assert!(inside);
+    drop(d);
+    let sticky = dispatch::has_been_set();
+    let t: usize = kani::any();
+    kani::assume(t < tracing_core::__verif::THREADS);
+    emit_all_expect_silence(t);
+    assert!(C.events.load(Relaxed) == 0 && C.spans.load(Relaxed) == 0);
+    assert!(sticky && dispatch::has_been_set());
 }
 
 /// vacuity twin of the reverse direction
